@@ -120,6 +120,9 @@ def run(ctx):
             ctx.check(not bad, 'C01.thin', f['pq'], f['n'] + f['sig'], fwhere(f), 'only calls Array members',
                       '%s touches Array storage or header directly: %s' % (f['pq'], [pe(b) for b in bad[:3]]))
     ctx.floor('C01.thin members', n, 15)
+    import retself
+    n = retself.check(ctx, prog, 'R-RETSELF', ('asl::Array', 'asl::Stack', 'asl::Queue'))
+    ctx.floor('R-RETSELF members', n, 5)
     return __doc__.split('\n\n', 1)[1]
 
 
@@ -151,6 +154,28 @@ def size_changers(prog):
     return res
 
 
+def reads_length_of_param(prog, call, k, depth=0):
+    """does the member called by `call` read the live length of its k-th parameter (directly or by handing it on, two levels)?"""
+    for g in prog.fn(call.get('fn'), call.get('sig')):
+        if not g.get('body') or k >= len(g['params']):
+            continue
+        gid = g['params'][k]['id']
+        for w in fn_exprs(g):
+            if w.get('k') != 'call':
+                continue
+            name = (w.get('pq') or '').split('::')[-1]
+            if name in ('length', 'd', 'cap') and w.get('obj') is not None:
+                o = strip(w['obj'])
+                if o.get('k') == 'var' and o.get('id') == gid:
+                    return True
+            if depth < 2 and w.get('clsp') == 'asl::Array':
+                for k2, a2 in enumerate(w.get('a') or []):
+                    a0 = strip(a2)
+                    if a0.get('k') == 'var' and a0.get('id') == gid and reads_length_of_param(prog, w, k2, depth + 1):
+                        return True
+    return False
+
+
 def check_selfarg(ctx, prog, ac):
     changers = size_changers(prog)
     if 'asl::Array::resize' not in changers or 'asl::Array::insert' not in changers:
@@ -175,6 +200,12 @@ def check_selfarg(ctx, prog, ac):
                     return st
                 e = nd.e
                 if e.get('k') == 'call':
+                    # ... or the argument handed on whole to a member that reads its length (`clear(); append(b);`)
+                    if st == 'resized' and e.get('clsp') == 'asl::Array' and alias.is_this_obj(e):
+                        for k_, a_ in enumerate(e.get('a') or []):
+                            a0 = strip(a_)
+                            if a0.get('k') == 'var' and a0.get('id') == pid and reads_length_of_param(prog, e, k_):
+                                hits.append(e.get('l', 0))
                     if e.get('clsp') == 'asl::Array' and e.get('pq') in changers and alias.is_this_obj(e):
                         return 'resized'
                     name = (e.get('pq') or '').split('::')[-1]
